@@ -48,6 +48,7 @@ var (
 	nextAuto  int
 	chaosSeed atomic.Int64
 	vnow      atomic.Int64 // virtual clock (ns)
+	gen       atomic.Int64 // schedule generation: observations of goroutines of an older schedule are dropped
 )
 
 func goid() uint64 {
@@ -65,6 +66,7 @@ func SetMode(m int) { mode.Store(int32(m)) }
 
 // Reset forgets every managed goroutine (between schedules).
 func Reset(autoRegister bool, firstAutoTid int) {
+	gen.Add(1)
 	mu.Lock()
 	gs = map[uint64]*gstate{}
 	byTid = map[int]*gstate{}
@@ -126,6 +128,7 @@ func chaos() {
 func Spawn(tid int, f func() string) {
 	g := &gstate{tid: tid, grant: make(chan struct{})}
 	started := make(chan struct{})
+	myGen := gen.Load()
 	go func() {
 		id := goid()
 		mu.Lock()
@@ -137,12 +140,14 @@ func Spawn(tid int, f func() string) {
 			mu.Lock()
 			delete(gs, id)
 			mu.Unlock()
-			if r := recover(); r != nil {
+			if r := recover(); r != nil && gen.Load() == myGen {
 				obsCh <- Obs{tid, "panic", fmt.Sprint(r)}
 			}
 		}()
 		r := f()
-		obsCh <- Obs{tid, "ret", r}
+		if gen.Load() == myGen {
+			obsCh <- Obs{tid, "ret", r}
+		}
 	}()
 	<-started
 }
